@@ -70,7 +70,10 @@ type Scn struct {
 	Lays       [][]Geom // layouts; Lays[k][i] = geometry of widget i+1 relative to its parent
 	// Hid[k] = widgets (ids) that their parent's Draw does not add as a child in
 	// layout k: they and their subtrees are not part of a frame drawn from it
-	Hid   [][]int `json:",omitempty"`
+	Hid [][]int `json:",omitempty"`
+	// Pars[k], when present, is the parent relation of layout k instead of Parent: a
+	// widget (with its subtree) may be drawn by another parent after a layout switch
+	Pars  [][]int `json:",omitempty"`
 	Rules []Rule
 	Steps []Step
 }
@@ -285,6 +288,14 @@ func (sc *Scn) hidden(lay, id int) bool {
 	return false
 }
 
+// parentAt returns the parent relation of layout lay.
+func (sc *Scn) parentAt(lay int) []int {
+	if lay < len(sc.Pars) && len(sc.Pars[lay]) == len(sc.Parent) {
+		return sc.Pars[lay]
+	}
+	return sc.Parent
+}
+
 func (s *session) surface(id, lay int) vxfw.Surface {
 	g := s.sc.Lays[lay][id-1]
 	sf := vxfw.NewSurface(uint16(g.W), uint16(g.H), s.ws[id-1])
@@ -294,8 +305,9 @@ func (s *session) surface(id, lay int) vxfw.Surface {
 			sf.WriteCell(uint16(c), uint16(r), cell)
 		}
 	}
-	for k := range s.sc.Parent {
-		if s.sc.Parent[k] == id && !s.sc.hidden(lay, k+1) {
+	par := s.sc.parentAt(lay)
+	for k := range par {
+		if par[k] == id && !s.sc.hidden(lay, k+1) {
 			kg := s.sc.Lays[lay][k]
 			sf.AddChild(kg.X, kg.Y, s.surface(k+1, lay))
 			sf.Children[len(sf.Children)-1].ZIndex = kg.Z
@@ -435,14 +447,16 @@ func printed(out []byte) int {
 func Run(ctx *Ctx, sc *Scn) (evs []trace.Ev, note string) {
 	n := len(sc.Parent)
 	lays := make([]any, len(sc.Lays))
+	pars := make([]any, len(sc.Lays))
 	for k, l := range sc.Lays {
+		pars[k] = sc.parentAt(k)
 		gs := make([]any, n)
 		for i, g := range l {
 			gs[i] = map[string]any{"x": g.X, "y": g.Y, "w": g.W, "h": g.H, "z": g.Z, "hid": sc.hidden(k, i+1)}
 		}
 		lays[k] = gs
 	}
-	evs = append(evs, trace.Ev{"ev": "reset", "n": n, "parent": sc.Parent, "caps": sc.Caps, "lays": lays})
+	evs = append(evs, trace.Ev{"ev": "reset", "n": n, "pars": pars, "caps": sc.Caps, "lays": lays})
 	vs, err := vxsess.Start(responder.FromMask(0, false), sc.Cols, sc.Rows)
 	if err != nil {
 		return append(evs, trace.Ev{"ev": "panic", "pmsg": "start"}), "start: " + err.Error()
